@@ -153,10 +153,10 @@ def A_poly(b, cfg, mode, deg, maxn, workers=4):
 def plan_C08(b, tier, seed):
     if tier == "quick":
         return [A_poly(b, "f5", "arith", 3, 4, 6), A_poly(b, "f5", "unary", 4, 4), A_poly(b, "f17", "unary", 2, 8), A_poly(b, "f13", "unary", 3, 4),
-                A_poly(b, "f7", "unary", 3, 6), A_poly(b, "f7", "arith", 2, 4, 6)]
+                A_poly(b, "f7", "unary", 3, 6), A_poly(b, "f7", "arith", 2, 4, 6), A_poly(b, "f12289", "polybig", 0, 130, 8)]
     return [A_poly(b, "f5", "arith", 4, 4, 8), A_poly(b, "f7", "arith", 3, 4, 8), A_poly(b, "f17", "arith", 2, 4, 8), A_poly(b, "f97", "arith", 2, 4, 8),
             A_poly(b, "f5", "unary", 5, 4), A_poly(b, "f17", "unary", 3, 16, 8), A_poly(b, "f97", "unary", 2, 12, 8), A_poly(b, "f13", "unary", 4, 4),
-            A_poly(b, "f7", "unary", 4, 6), A_poly(b, "f37", "unary", 2, 12, 8)]
+            A_poly(b, "f7", "unary", 4, 6), A_poly(b, "f37", "unary", 2, 12, 8), A_poly(b, "f12289", "polybig", 0, 1030, 8), A_poly(b, "f40961", "polybig", 0, 300, 8)]
 
 def plan_C07(b, tier, seed):
     if tier == "quick":
@@ -270,7 +270,8 @@ def plan_C14(b, tier, seed):
     t = []
     P = lambda cfg, mode, deg, maxn, w=4: (lambda: toy_replay(b, "poly", "MC_Poly", cfg, mode, workers=w, env_extra={"DEG": str(deg), "MAXN": str(maxn)}, threads=th,
                                                                label="A:poly:%s:%s:deg%d:maxn%d:threads" % (cfg, mode, deg, maxn)))
-    t += [P("f97", "domain", 0, 32), P("f257", "domain", 0, 16), P("f17", "unary", 2, 8), P("f12289", "fftbig", 0, 128 if tier == "quick" else 512, 8), P("f5", "arith", 3, 4, 6)]
+    t += [P("f97", "domain", 0, 32), P("f257", "domain", 0, 16), P("f17", "unary", 2, 8), P("f12289", "fftbig", 0, 128 if tier == "quick" else 512, 8), P("f5", "arith", 3, 4, 6),
+          P("f12289", "polybig", 0, 300 if tier == "quick" else 1030, 8)]
     t += [lambda: toy_replay(b, "field", "MC_Field", "f13", "arith", workers=4, threads=th, label="A:field:f13:arith:threads"),
           lambda: toy_replay(b, "curve", "MC_Curve", "sw13_1_0", "arith", workers=4, threads=th[:4], label="A:curve:sw13_1_0:arith:threads"),
           lambda: toy_replay(b, "curve", "MC_Curve", "te13_1_7", "mul", workers=4, threads=th[:4], label="A:curve:te13_1_7:mul:threads"),
@@ -303,7 +304,7 @@ PLANS = {"C16": plan_C16, "C13": plan_C13, "C14": plan_C14, "C06": plan_C06, "C2
 
 RULES = {
  "C16": "B: the configuration dumpers are GENERATED from the source text of /repo (every #[derive(MontConfig)] struct with its declared attributes, every FpK<..Config> type, every impl of SWCurveConfig / TECurveConfig / GLVConfig / WBConfig / Bls12Config / BnConfig / BW6Config / MNT4Config / MNT6Config in the 7 test-curves modules and all 26 curve crates, ~150 configuration items) and read every constant through the public traits; TLC evaluates the defining equation of every constant with the specification's own arithmetic: modulus prime (Miller-Rabin, 12 bases) and equal to the declared attribute, bit size, spare bit, R, R2, INV, two-adicity, trace and the derived halves, generator a quadratic non-residue, 2-adic and large-subgroup roots = generator power with EXACT orders; X^d - nonresidue irreducible at every tower level, every Frobenius table entry = g^(p^i) / g (and (g^2)^(p^i) / g^2) computed by exponentiation in the tower, cubic-extension Tonelli-Shanks constants; curves non-singular, generator on the curve with r G = O, r prime, cofactor inverse, h r in the Hasse interval and annihilating sampled points; GLV: endomorphism(P) = lambda P on the generator and sampled subgroup points, lattice rows in the kernel lattice, det = r, short basis; WB/SWU: Z non-square, A'B' # 0, isogeny maps E' to E and is a group homomorphism on sampled points; pairing families: BLS12 r(x), p(x) and twist b' = b xi^(+-1), BN p(x), r(x), ate digits, twist Frobenius constants, BW6 r(x), loop counts, MNT twist coefficients, ate loop count = t - 1, final exponent Phi_k(q) = r (w1 q + w0)", "C13": "M: the specification's expand_message_xmd (incl. oversize DST) and hash_to_field reproduce the 30 expand_message_xmd vectors (SHA-256 / SHA-512, 38- and 256-byte DSTs) and the 10 BLS12-381 G1/G2 hash_to_field vectors of RFC 9380 inside TLC; B: seeded calls of the real DefaultFieldHasher (messages of 0..300 bytes, DSTs of 0, 1, 43, 255, 256, 280/300 bytes, 1..5 elements, Fq / Fq2 / several prime fields, SHA-256 and SHA-512), SWUMap on boundary and random u (0, small, p-1, ...), WBMap and the full hash_to_curve for BLS12-381 G1 and G2: TLC recomputes hash_to_field, checks the SWU point through the RFC's defining relation (x = x1 if g(x1) square else Z u^2 x1, y^2 = g(x), sgn0(y) = sgn0(u)), applies the isogeny as a rational map, adds with its own group law, clears the cofactor with h_eff and checks subgroup membership and determinism",
- "C14": "the harness is built a second time with the parallel feature of ark-ff / ark-ec / ark-poly / ark-serialize / ark-std; the SAME TLC-emitted transitions and recorded traces that decide C01/C03/C04/C05/C06/C07/C08/C17/C18 on the serial build are replayed inside rayon pools of 1, 2, 3, 4, 7, 16 threads (thorough: 1..9, 12, 13, 16, 17, 33) and judged by the same specification: FFT / IFFT of all domain kinds for every input length up to 32 and for sizes 32..128 (thorough 512; these pass the 128-element parallel-chunk threshold) incl. cosets, Lagrange coefficients, element tables, polynomial evaluation over domains, multiplication and division, batch inversion, sum of products, batch normalisation, scalar multiplication tables, MSM entry points and accumulators, multi-pairings, container / batched validity checks",
+ "C14": "the harness is built a second time with the parallel feature of ark-ff / ark-ec / ark-poly / ark-serialize / ark-std; the SAME TLC-emitted transitions and recorded traces that decide C01/C03/C04/C05/C06/C07/C08/C17/C18 on the serial build are replayed inside rayon pools of 1, 2, 3, 4, 7, 16 threads (thorough: 1..9, 12, 13, 16, 17, 33) and judged by the same specification: FFT / IFFT of all domain kinds for every input length up to 32 and for sizes 32..128 (thorough 512; these pass the 128-element parallel-chunk threshold) incl. cosets, Lagrange coefficients, element tables, polynomial evaluation over domains, evaluation / linear operations / products / quotients of polynomials with 15..300 coefficients (thorough 1030; lengths around every power of two, where the chunked Horner evaluation and the parallel iterators split), multiplication and division, batch inversion, sum of products, batch normalisation, scalar multiplication tables, MSM entry points and accumulators, multi-pairings, container / batched validity checks",
  "C06": "B: seeded programs on every pairing engine (BLS12-381 M-twist, BLS12-377 D-twist, BN254, BW6-761, BW6-767, MNT4-298/753, MNT6-298/753): registers of G1, G2, GT are loaded with known multiples of the generators (scalars 0, 1, 2, r-1, small, random), combined with add / neg / scalar multiplication, paired (single pairing, multi-pairing of 0,1,2,3,4,5,9 pairs, prepared inputs, Miller loop + final exponentiation, product of single pairings) and combined in GT (mul, inverse, power); after every step the set of registers equal to the written one, its identity-ness and - for GT - order-divides-r / Valid::check are logged and TLC requires the partition to be the partition of the discrete logarithms a*b. non-trivial = written register is not the identity",
  "C20": "A: for 8 moduli of the zoo (1, 2, 4, 6, 13 limbs; with / without spare bit; Mersenne 2^127-1, 2^255-19, Goldilocks), derived and hand-written configuration: TLC generates every literal sign x {decimal, 0x, 0X, 0o, 0O, 0b, 0B} x {0, 2 leading zeros} x 21 values (0, 1, 2, 10, 15, 16, 255, 2^32, 2^64-1, 2^64, 2^64+1, (p-1)/2, p-2, p-1, p, p+1, 2p, 2p+1, 2^(64N-1), (2^64N)/3, 2^(64N)-1) with the value it must denote; all ~800 literals per modulus are compiled as MontFp! / BigInt! constants and the constant's raw Montgomery limbs are compared with the run-time element of the same value; plus the derive macro's limb count, modulus limbs, R, R2, INV, bit size, two-adicity, generator and 2-adic root against their definitions",
  "C18": "A: a zoo of 44 composite types (all integer widths and signs, usize, bool, Option, Vec / VecDeque / LinkedList incl. nested, tuples, arrays, String, BigUint, BTreeSet, BTreeMap, Rc / Arc / Cow, the four derive shapes named / tuple / nested-tuple / generic, and the mode-pinning wrappers around the only mode-dependent leaf - points of a toy curve - alone, inside Vec and inside tuples): every value built from tiny leaf domains up to length 2 x both ambient modes: bytes, advertised size, exact-size buffer; a structured set of ~4700 byte strings per type (every payload of <= 3 bytes over an alphabet with ASCII, valid 2-byte UTF-8, lone continuation byte, 0xFF; behind every length prefix in {0..4, 2^16, 2^40, 2^62, 2^64-1}): error vs value, decoded value, bytes consumed; panics and aborts are violations",
@@ -313,7 +314,7 @@ RULES = {
  "C10": "A: EVERY byte string of length 0..size (<= 2 bytes) offered as compressed / uncompressed encoding with validation on and off, on toy curves with cofactor 1, 2, 4, 8, 18, 20, 36 (so most decodable points lie outside the subgroup) and x-coordinates without a root: error vs Ok, the decoded point, panics; with validation the returned point must be on the curve and in the prime-order subgroup",
  "C11": "A: EVERY element of toy fields (p = 3 mod 4: 7,11,31; two-adicity 2..8: 13,17,97,193,257; F_{p^2}, F_{p^3} with configured constants, F_{p^4}, F_{p^6} = 2 over 3) through sqrt / sqrt_in_place (relation: a root is returned exactly for squares and squares back), legendre (Euler criterion by norm descent, checked by TLC against the existence of a root); exhaustive traces over F_12289 and F_40961 (two-adicity 12, 13); B: shipped fields and the zoo (two-adicity up to 47; Goldilocks 32) with squares, non-squares and boundary values",
  "C19": "A: eq / cmp / hash-consistency / is_zero / is_one on all pairs of toy field and tower elements, of boundary big integers, of curve points in ALL pairs of projective representatives (equality and hashing must not depend on the representative; affine vs projective), of polynomials in dense and sparse form; B: the same queries inside full-size traces where equal values arise along different operation sequences",
- "C08": "A: PolyMachine over toy prime fields: all ordered pairs of polynomials of degree < DEG x add/sub/mul/div/scaled add/eq in every dense/sparse mix and API variant (operators by value/reference, assign forms, naive and FFT products, the four divide_with_q_and_r mixes); every polynomial x scaling, evaluation, canonical-form conversions, vanishing-polynomial mul/div and evaluate_over_domain / interpolate over every small domain and coset (radix-2, mixed-radix, general), including polynomials longer than the domain. Results are compared as STORED coefficient vectors, so non-canonical results are visible. non-trivial = register changed or a non-zero value returned",
+ "C08": "A: PolyMachine over toy prime fields: all ordered pairs of polynomials of degree < DEG x add/sub/mul/div/scaled add/eq in every dense/sparse mix and API variant (operators by value/reference, assign forms, naive and FFT products, the four divide_with_q_and_r mixes); every polynomial x scaling, evaluation, canonical-form conversions, vanishing-polynomial mul/div and evaluate_over_domain / interpolate over every small domain and coset (radix-2, mixed-radix, general), including polynomials longer than the domain; patterned polynomials of 15..130 coefficients (thorough 1030) x evaluation, linear operations, products and quotients with small and large operands. Results are compared as STORED coefficient vectors, so non-canonical results are visible. non-trivial = register changed or a non-zero value returned",
  "C07": "A: every constructible domain up to MAXN over fields with two-adicity 2..13 and small subgroups 3^k / 5^k: construction for every request 0..MAXN+1 and around the largest subgroup (all three kinds; minimal admissible size or none), generator order, element(i) for all i, elements(), FFT of every unit vector / all-ones / dense vector for EVERY input length 0..n, IFFT, vanishing polynomial and all Lagrange coefficients at every field element (p <= 31) or at in-domain and off-domain samples; four coset offsets",
  "C03": "A: every transition of CurveMachine over toy curves (all ordered pairs of ALL points of the curve - prime-order subgroup for incomplete Edwards curves - x add/sub/eq/sum/batch-normalise; all points x double/negate/conversions), replayed through every projective rescaling of the operands (all of F_q^* for q = 13, 12 spread values otherwise) and every API variant (proj+proj, mixed, affine+affine, iterator sums). B: seeded programs on shipped curves with randomly rescaled registers; raw Jacobian / extended coordinates decoded by the specification. non-trivial = abstract register changed or a value returned",
  "C04": "A: every (k, P) with k in 0..2r+2 and P any point of a toy curve, through mul_bigint (with leading zero limbs), affine mul_bigint, bit streams (with/without leading zeros), scalar-field multiplication, w-NAF w=2..6 with fresh / precomputed / too-short tables, batch_mul for 1,2,31,32,33 scalars and three table sizings. B: boundary scalars (0,1,r-1,r,r+1,2^64-1,2^64N-1,random) on shipped curves, spec computes k.P by its own double-and-add",
